@@ -186,18 +186,21 @@ theorem bundleLoop_frames {r : Ring} {msg : Bytes} (h : r.d0 ++ r.d1 = msg) :
     ∀ (cs : List Bytes) (p fuel k : Nat),
     msg.drop p = frames cs ++ zeros k → (∀ c ∈ cs, c ≠ []) →
     p + (frames cs).length + 3 < 4294967296 → cs.length < fuel →
+    p + (frames cs).length ≤ r.total →
     bundleLoop r fuel p = some (p + (frames cs).length) := by
   intro cs
   induction cs with
   | nil =>
-    intro p fuel k hd _ hlt hf
+    intro p fuel k hd _ hlt hf htot
     obtain ⟨f, rfl⟩ : ∃ f, fuel = f + 1 := ⟨fuel - 1, by simp at hf; omega⟩
     have : r.rd32 p = 0 := ring_rd32_zeros h (k := k) (by simpa [frames] using hd) (by simp [frames] at hlt; omega)
-    simp [bundleLoop, this, frames]
+    simp only [frames, List.length_nil, Nat.add_zero] at htot ⊢
+    have hin : ¬ p > r.total := by omega
+    simp [bundleLoop, this, hin, htot]
   | cons c cs ih =>
-    intro p fuel k hd hne hlt hf
+    intro p fuel k hd hne hlt hf htot
     obtain ⟨f, rfl⟩ : ∃ f, fuel = f + 1 := ⟨fuel - 1, by simp at hf; omega⟩
-    rw [frames_cons_length] at hlt
+    rw [frames_cons_length] at hlt htot
     have hc : c.length ≠ 0 := by
       have := hne c List.mem_cons_self
       simpa using this
@@ -209,10 +212,12 @@ theorem bundleLoop_frames {r : Ring} {msg : Bytes} (h : r.d0 ++ r.d1 = msg) :
       have := drop_add_of_drop (x := be32 (UInt32.ofNat c.length) ++ c)
         (y := frames cs ++ zeros k) (by rw [hd]; simp [frames])
       simpa [be32_length] using this
-    simp only [bundleLoop, hrd, hv, ne_eq, hc, not_false_eq_true, if_true]
+    have hin : ¬ p > r.total := by omega
+    have hfit : ¬ c.length > r.total - p := by omega
+    simp only [bundleLoop, hin, hrd, hv, hfit, ne_eq, hc, not_false_eq_true, if_true, if_false]
     rw [u32_id (n := 4 + c.length) (by omega), u32_id (by omega),
       ih (p + (4 + c.length)) f k hd' (fun c hc => hne c (List.mem_cons_of_mem _ hc)) (by omega)
-        (by simp at hf; omega)]
+        (by simp at hf; omega) (by omega)]
     rw [frames_cons_length]; congr 1; omega
 
 theorem chunks_nonempty (es : List Elem) : ∀ c ∈ es.map Spec.encodeElem, c ≠ [] := by
@@ -280,8 +285,6 @@ theorem messageLength_bundle_spec (tt : UInt64) (es : List Elem) (k : Nat)
   rw [if_pos hmagic]
   unfold bundleRingLength
   rw [bundleLoop_frames hr (es.map Spec.encodeElem) 16 r.fuel k hd (chunks_nonempty es) (by omega)
-    (by simp only [Ring.fuel, htot, List.length_map] at hfl ⊢; omega)]
-  simp only
-  rw [if_pos (by omega), hl]
+    (by simp only [Ring.fuel, htot, List.length_map] at hfl ⊢; omega) (by omega), hl]
 
 end Rtosc.Osc
